@@ -175,7 +175,8 @@ CHECKS = {
               "context (lock-step), emitted codes are never 0, and every element is within an integral bound e (|d - 2e*floor((d+e)/2e)| <= e), "
               "unpredictable ones exact; the two ways the unguarded statement fails (non-integral bounds, values leaving their C type) are refuted "
               "statements with witnesses and listed finding classes. On every run the model's reconstruction is compared bit for bit with the "
-              "implementation on runs without narrowing events (all eight types, ranks 1..4), and the bound oracle runs on all cases."),
+              "implementation on runs without narrowing events (all eight types, ranks 1..4), and the bound oracle runs on all cases. The width of a stored exact "
+              "value (computeByteSizePerIntValue, translated from the source on every run) holds every offset of every value range: C03_exact_value_roundtrip."),
         note=TB_COMMON + "binary64 evaluation of the state formula assumed exact below 2^52 (tied by comparison); per-file C types of intermediates are a table in the model; finding classes int_fractional_bound / int_narrowing are decided by e and by the model's event flag (or a sufficient safe-zone predicate).",
         technique="Coq proof (generic codec induction + integer division lemma) + bit-exact model/implementation comparison + bound oracle"),
     "C01": dict(
